@@ -229,6 +229,29 @@ def search(ck, tier, seed):
             ck.finding("sampling:MADEMoG:samples-do-not-follow-density",
                        "%d mixture components: KS distance %.3f between 20000 samples and the integrated density" % (K, ks),
                        {"search": "mog-sampling", "K": K, "seed": seed})
+    # ---- samples follow the density of THEIR context row also when drawn in batches (batch sizes that do and do not divide the
+    # count): contexts whose densities sit far apart, per-row sample statistics against that row's own mean
+    for dname, mkd, ctxs, want in (
+            ("ConditionalDiagonalNormal", lambda: normal.ConditionalDiagonalNormal([2]),
+             torch.tensor([[-50.0, 20.0, -2.0, -2.0], [0.0, 0.0, -2.0, -2.0], [50.0, -20.0, -2.0, -2.0]]),
+             torch.tensor([[-50.0, 20.0], [0.0, 0.0], [50.0, -20.0]])),
+            ("ConditionalIndependentBernoulli", lambda: discrete.ConditionalIndependentBernoulli([2]),
+             torch.tensor([[30.0, -30.0], [-30.0, -30.0], [30.0, 30.0]]), torch.tensor([[1.0, 0.0], [0.0, 0.0], [1.0, 1.0]]))):
+        d = mkd().eval()
+        for n_, bs in ((12, None), (12, 6), (12, 5), (12, 1), (7, 3), (7, 10)):
+            torch.manual_seed(seed + n_)
+            with torch.no_grad():
+                r = attempt(d.sample, n_, ctxs, bs) if bs is not None else attempt(d.sample, n_, ctxs)
+            ck.case(("batched-sampling", dname, n_, bs), nontrivial=True)
+            case = {"search": "batched-sampling", "class": dname, "n": n_, "batch_size": bs, "seed": seed}
+            if r[0] != "ok" or list(r[1].shape) != [3, n_, 2]:
+                ck.finding("sampling:batched:%s" % dname, "sample(%d, 3 context rows, batch_size=%s) -> %s" % (n_, bs, list(r[1].shape) if r[0] == "ok" else r[1:]), case)
+                continue
+            m_ = r[1].float().mean(1)
+            if float((m_ - want).abs().max()) > 1.0:
+                ck.finding("sampling:samples-do-not-follow-their-context-row:%s" % dname,
+                           "sample(%d, 3 context rows, batch_size=%s): per-row sample means %s, the rows' own means are %s"
+                           % (n_, bs, [[round(v, 2) for v in row] for row in m_.tolist()], want.tolist()), case)
     # ---- uniform-box style priors
     bu = uniform.BoxUniform(low=torch.tensor([-1.0, 0.0]), high=torch.tensor([2.0, 4.0]))
     ck.case(("boxuniform",), nontrivial=True)
@@ -270,7 +293,7 @@ def search(ck, tier, seed):
 
 
 def run(tier, seed):
-    ck = Check("C05", tier, seed, areas=[], gen_groups=["Dist", "Nonlin"])
+    ck = Check("C05", tier, seed, areas=[], gen_groups=["Dist", "Nonlin", "DistBase"])
     ck.rule = ("Bernoulli: exact summation over {0,1}^D (D up to 8, 1-D and 2-D event shapes); standard / diagonal / conditional "
                "diagonal normal: quadrature in one and two dimensions for four event shapes, mean() against the quadrature "
                "expectation and the documented shape, sample means with a fixed seed; MADE mixture: quadrature of the 1-D and 2-D "
